@@ -390,6 +390,15 @@ def run_history(ctx, items, plan, mode, case):
         if mode == "global":
             akcolor.set_global_colors_config(conf)
             made_global = True
+            # the global configuration is global: a worker thread of the application sees the one that was installed
+            import threading
+            seen = []
+            worker = threading.Thread(target=lambda: seen.append(akcolor.get_global_colors_config()))
+            worker.start()
+            worker.join(30)
+            ctx.count("global_configuration_asked_for_from_another_thread")
+            if not seen or seen[0] is not conf:
+                fail("another-thread-sees-another-global-configuration", {"seen": repr(seen[:1])[:80]})
         verify(conf, "init", palettes)
         twin = None
         for bi, (kind, batch, conflicts) in enumerate(plan["batches"]):
@@ -602,7 +611,37 @@ def long_chain_case(ctx, n=1500):
         ctx.violation("registration-raises", {"type": type(err).__name__, "msg": str(err)[:120], "chain_links": n}, case)
 
 
+def built_in_amended_case(ctx, k):
+    """an application's configuration class with built-in descriptions of its own; the application adds to them (a
+    plug-in was loaded) after a configuration object exists already: configurations made afterwards have them all"""
+    ctx.evaluated()
+    base = dict(ColorsConfig.BUILT_IN_CONFIG)
+    app_conf = type("VfAppConfig%d" % k, (ColorsConfig,), {"BUILT_IN_CONFIG": dict(base, VFAPP={"FIRST": "GREEN:bold"})})
+    case = {"kind": "built-in-amended", "k": k}
+    try:
+        first = app_conf({})
+        app_conf.BUILT_IN_CONFIG = dict(app_conf.BUILT_IN_CONFIG, VFPLUG={"ITEM": "VFAPP.FIRST:underline", "OWN": "RED"})
+        second = app_conf({"VFUSER": "VFPLUG.ITEM:/BLUE"})
+        got = {sid: shown_state(second.get_color(sid)) for sid in ("VFAPP.FIRST", "VFPLUG.ITEM", "VFPLUG.OWN", "VFUSER")}
+        got_first = shown_state(first.get_color("VFAPP.FIRST"))
+    except Exception as err:
+        ctx.violation("valid-configuration-rejected", {"type": type(err).__name__, "msg": str(err)[:200]}, case)
+        return
+    ctx.count("configuration_classes_whose_built_in_items_were_amended")
+    green, red, blue = (('c', 2), ('c', 1), ('c', 4))
+    want = {"VFAPP.FIRST": (green, None, frozenset({'bold'})),
+            "VFPLUG.ITEM": (green, None, frozenset({'bold', 'underline'})),
+            "VFPLUG.OWN": (red, None, frozenset()),
+            "VFUSER": (green, blue, frozenset({'bold', 'underline'}))}
+    if got != want or got_first != want["VFAPP.FIRST"]:
+        bad = sorted(s for s in want if got.get(s) != want[s])
+        ctx.violation("formatter-differs-from-resolved-description",
+                      {"ids": bad, "shown": str({s: got[s] for s in bad})[:200], "step": "built-in items amended"}, case)
+
+
 def run_shard(ctx):
+    for k in range(3):
+        built_in_amended_case(ctx, ctx.shard * 10 + k)
     if ctx.shard == 0:
         long_chain_case(ctx)
     for i in range(ctx.cases):
@@ -632,6 +671,9 @@ def run_shard(ctx):
 def replay(ctx, case):
     if case.get("kind") == "long-chain":
         long_chain_case(ctx, case["links"])
+        return
+    if case.get("kind") == "built-in-amended":
+        built_in_amended_case(ctx, 900 + case["k"])
         return
     _replay(ctx, case)
 
